@@ -35,6 +35,8 @@ from .oracle.schema import parikh, schema
 
 STRUCT_OPS = ('add', 'add_fwd', 'add_nested', 'remove', 'remove_nonchild', 'remove_grandchild', 'remove_elsewhere', 'replace', 'replace_fn', 'replace_nonchild', 'dot_inst',
               'dot_val', 'dot_none')
+# integers beyond the range of a double: whatever the library answers, it must be one of its documented answers
+EXTREME = [10 ** 400, -10 ** 400]
 FOREIGN_POOL = ['pitch', 'words', 'p', 'step', 'measure', 'note', 'work', 'credit', 'staff', 'f']
 
 
@@ -479,7 +481,7 @@ def draw_op(data, run, weights=None, sym_bias=None):
             if not ok:
                 pv = txt
         else:
-            bad = lexical.invalid_texts(tt) or [3.5, -7]
+            bad = (lexical.invalid_texts(tt) or [3.5, -7]) + EXTREME
             pv = data.draw(st.sampled_from(bad))
         return ['dot_val', n, pv]
     if k == 'dot_none':
@@ -507,7 +509,7 @@ def draw_op(data, run, weights=None, sym_bias=None):
             if not ok:
                 pv = txt
         else:
-            pv = data.draw(st.sampled_from((lexical.invalid_texts(a['type']) or []) + [None, 2.5, -3, 'zzz']))
+            pv = data.draw(st.sampled_from((lexical.invalid_texts(a['type']) or []) + [None, 2.5, -3, 'zzz'] + EXTREME))
             if pv is None:
                 pv = []
         return ['set_attr', a['qname'], pv]
@@ -520,7 +522,7 @@ def draw_op(data, run, weights=None, sym_bias=None):
             txt = data.draw(st.sampled_from(lexical.valid_texts(tt)))
             ok, pv = lexical.python_value_for(tt, txt)
             return ['set_value', pv if ok else txt]
-        return ['set_value', data.draw(st.sampled_from((lexical.invalid_texts(tt) or []) + [2.5, -3, 'zzz']))]
+        return ['set_value', data.draw(st.sampled_from((lexical.invalid_texts(tt) or []) + [2.5, -3, 'zzz'] + EXTREME))]
     if k == 'deepcopy':
         return ['deepcopy']
     raise ValueError(k)
